@@ -219,6 +219,7 @@ func (cfg *Config) applyJSONConfig(jcfg *jsonConfig) error {
 
 	// Own values
 	config.SetIfNotDefault(jcfg.DataFolder, &cfg.DataFolder)
+	config.SetIfNotDefault(jcfg.DatastoreNamespace, &cfg.DatastoreNamespace)
 	config.SetIfNotDefault(waitForLeaderTimeout, &cfg.WaitForLeaderTimeout)
 	config.SetIfNotDefault(networkTimeout, &cfg.NetworkTimeout)
 	cfg.CommitRetries = jcfg.CommitRetries
